@@ -1,0 +1,44 @@
+//go:build verif
+
+// Contracts for package grpc, checked by /verif/govc (comment-only; not part of any normal build).
+
+package grpc
+
+//@ func (resolver.ServiceResolver).Resolve
+//@   trusted
+//@   benign
+//@ func resolver.MakeServiceReference
+//@   trusted
+//@   benign
+//@ func (did.Service).UnmarshalServiceEndpoint
+//@   trusted
+//@   modifies args
+//@ func url.Parse
+//@   trusted
+//@   benign
+//@   ensures isNilIface(result.1) ==> result.0 != nil
+//@ func (*url.URL).Hostname
+//@   trusted
+//@   benign
+//@ func (*x509.Certificate).VerifyHostname
+//@   trusted
+//@   benign
+//@ func (transport.Peer).CertificateAsPem
+//@   trusted
+//@   benign
+
+// ---- C15: a peer is authenticated as a node DID only by a certificate for the NutsComm host that DID's
+// document names NOW ----
+// Every authentication resolves the NutsComm service of the claimed DID and verifies the peer's
+// certificate against the host of exactly that endpoint: nothing remembered from an earlier
+// authentication (the document may have moved its endpoint, dropped the service or been deactivated).
+//@ func (tlsAuthenticator).Authenticate
+//@   prop C15
+//@   requires !isNilIface(t.serviceResolver)
+//@   ensures [authenticated-only-by-a-certificate-for-the-dids-current-nutscomm-host] isNilIface(result.1) ==> result.0.Authenticated && same(result.0.NodeDID, nodeDID)
+//@        && did(call (resolver.ServiceResolver).Resolve #1) && isNilIface(ret(call (resolver.ServiceResolver).Resolve #1).1)
+//@        && arg(call (resolver.ServiceResolver).Resolve #1, 1) == ret(call resolver.MakeServiceReference #1) && same(arg(call resolver.MakeServiceReference #1, 0), nodeDID)
+//@        && arg(call resolver.MakeServiceReference #1, 1) == transport.NutsCommServiceType
+//@        && did(call (*x509.Certificate).VerifyHostname #1) && isNilIface(ret(call (*x509.Certificate).VerifyHostname #1)) && arg(call (*x509.Certificate).VerifyHostname #1, 0) == peer.Certificate
+//@        && arg(call (*x509.Certificate).VerifyHostname #1, 1) == ret(call (*url.URL).Hostname #1) && arg(call (*url.URL).Hostname #1, 0) == ret(call url.Parse #1).0 && isNilIface(ret(call url.Parse #1).1)
+//@   ensures [failure-is-not-authenticated] !isNilIface(result.1) ==> result.0.Authenticated == peer.Authenticated
